@@ -620,8 +620,86 @@ theorem normB_brk_none (legacy : Bool) : normB (brk legacy none) = ['[', ']'] :=
 /-- the type text `yanny.type()` returns for a column written with `char name[]` -/
 def typUnsized (c : Col) : Str := "char".toList ++ arrA c ++ ['[', ']']
 
-theorem typeOf_lay (enums : List EnumDecl) (he : ∀ e ∈ enums, enumOK e = true) (t : TableD F) (l : StructLay)
-    (ht : tableOK2 enums t = true) (hl : structLayOK enums t l = true) (hnl : declNlOK l.cols = true)
+theorem brk_ne_nil (legacy : Bool) (n : Option Nat) : brk legacy n ≠ [] := by simp [brk]
+
+/-- a declaration without brackets has an empty array suffix -/
+theorem arr_of_noBr (enums : List EnumDecl) (c : Col) (l : ColLay) (h : hasBr enums c = false) :
+    (memOf enums c l).arr = [] := by
+  simp only [hasBr, Bool.or_eq_false_iff, decide_eq_false_iff_not, Bool.and_eq_false_iff] at h
+  obtain ⟨h1, h2⟩ := h
+  simp only [memOf, arrLay, sizeLay, h1, if_false, List.nil_append]
+  cases hs : strSize c.ty with
+  | none => rfl
+  | some n =>
+    cases hf : enums.find? (fun e => e.col == c.name) with
+    | some e => rfl
+    | none => simp [hs, hf] at h2
+
+theorem restNoBr_memsOf (enums : List EnumDecl) (cols : List Col) (lays : List ColLay)
+    (h : lineRestOK enums cols lays = true) : restNoBr (memsOf enums cols lays) := by
+  induction cols generalizing lays with
+  | nil => cases lays <;> trivial
+  | cons c cs ih =>
+    cases lays with
+    | nil => trivial
+    | cons l ls =>
+      simp only [lineRestOK, Bool.or_eq_true, Bool.and_eq_true, Bool.not_eq_true'] at h
+      rcases h with h | h
+      · exact Or.inl (by simpa [memOf] using h)
+      · exact Or.inr ⟨arr_of_noBr enums c l h.1, ih ls h.2⟩
+
+theorem LineOK_memsOf (enums : List EnumDecl) (cols : List Col) (lays : List ColLay)
+    (h : declLineOK enums cols lays = true) : LineOK (memsOf enums cols lays) := by
+  induction cols generalizing lays with
+  | nil => cases lays <;> trivial
+  | cons c cs ih =>
+    cases lays with
+    | nil => trivial
+    | cons l ls =>
+      simp only [declLineOK, Bool.and_eq_true, Bool.or_eq_true, Bool.not_eq_true'] at h
+      refine ⟨?_, ih ls h.2⟩
+      rcases h.1 with h1 | h1
+      · exact Or.inl (arr_of_noBr enums c l h1)
+      · exact Or.inr (restNoBr_memsOf enums cs ls h1)
+
+theorem lineRestOK_of_all (enums : List EnumDecl) (cols : List Col) (lays : List ColLay)
+    (h : lays.all (fun l => l.pre.contains '\n') = true) : lineRestOK enums cols lays = true := by
+  cases cols with
+  | nil => cases lays <;> rfl
+  | cons c cs =>
+    cases lays with
+    | nil => rfl
+    | cons l ls =>
+      simp only [List.all_cons, Bool.and_eq_true] at h
+      simp only [lineRestOK, h.1, Bool.true_or]
+
+theorem declLineOK_of_all (enums : List EnumDecl) (cols : List Col) (lays : List ColLay)
+    (h : lays.all (fun l => l.pre.contains '\n') = true) : declLineOK enums cols lays = true := by
+  induction cols generalizing lays with
+  | nil => cases lays <;> rfl
+  | cons c cs ih =>
+    cases lays with
+    | nil => rfl
+    | cons l ls =>
+      simp only [List.all_cons, Bool.and_eq_true] at h
+      simp only [declLineOK, lineRestOK_of_all enums cs ls h.2, Bool.or_true, ih ls h.2, Bool.and_self]
+
+/-- the assumption of the first extension round is a special case of `declLineOK` -/
+theorem declLineOK_of_nl (enums : List EnumDecl) (cols : List Col) (lays : List ColLay)
+    (h : declNlOK lays = true) : declLineOK enums cols lays = true := by
+  cases cols with
+  | nil => cases lays <;> rfl
+  | cons c cs =>
+    cases lays with
+    | nil => rfl
+    | cons l ls =>
+      have h' : ls.all (fun l => l.pre.contains '\n') = true := h
+      simp only [declLineOK, lineRestOK_of_all enums cs ls h', Bool.or_true, declLineOK_of_all enums cs ls h',
+        Bool.and_self]
+
+theorem typeOf_layW (enums : List EnumDecl) (he : ∀ e ∈ enums, enumOK e = true) (t : TableD F) (l : StructLay)
+    (ht : tableOK2 enums t = true) (hl : structLayOK enums t l = true)
+    (hline : declLineOK enums t.cols l.cols = true)
     (sts : List Str) (hsel : selectDef sts (upper t.name) = some (structBlk enums t l))
     (k : Nat) (c : Col) (cl : ColLay) (hc : t.cols[k]? = some c) (hcl : l.cols[k]? = some cl) :
     typeOf sts (upper t.name) c.name =
@@ -630,19 +708,21 @@ theorem typeOf_lay (enums : List EnumDecl) (he : ∀ e ∈ enums, enumOK e = tru
   have hp := structLayOK_props enums t l hl
   have hms := memsOf_ok enums he t.cols l.cols hcols hp.cols
   have hmem := memsOf_mem enums t.cols l.cols k c cl hc hcl
-  have hts := typeSearch_lay (memsOf enums t.cols l.cols) l.closePre l.g1 l.g2 l.g3 l.name l.g4 hms
+  have hts := typeSearch_layW (memsOf enums t.cols l.cols) l.closePre l.g1 l.g2 l.g3 l.name l.g4 hms
     (by rw [memsOf_names enums _ _ hp.cols]; exact nodup_Nodup _ hnd)
-    (by
-      intro m hm
-      rw [memsOf_tail] at hm
-      obtain ⟨j, c', l', _, h2, rfl⟩ := memsOf_elim enums _ _ m hm
-      simp only [declNlOK, List.all_eq_true] at hnl
-      have := hnl l' (List.mem_of_getElem? h2)
-      simpa [memOf] using this)
+    (LineOK_memsOf enums t.cols l.cols hline)
     hp.cp ⟨hp.g1ne, hp.g1⟩ hp.g2 hp.g3 hp.g4 (wordOK_wordy _ hp.name) (memOf enums c cl) hmem
   have hts' : typeSearch c.name (structBlk enums t l) =
       some (tyWord enums c, arrLay c cl ++ sizeLay enums c cl) := hts
   simp only [typeOf, hsel, hts']
+
+theorem typeOf_lay (enums : List EnumDecl) (he : ∀ e ∈ enums, enumOK e = true) (t : TableD F) (l : StructLay)
+    (ht : tableOK2 enums t = true) (hl : structLayOK enums t l = true) (hnl : declNlOK l.cols = true)
+    (sts : List Str) (hsel : selectDef sts (upper t.name) = some (structBlk enums t l))
+    (k : Nat) (c : Col) (cl : ColLay) (hc : t.cols[k]? = some c) (hcl : l.cols[k]? = some cl) :
+    typeOf sts (upper t.name) c.name =
+      .ok (tyWord enums c ++ normB (arrLay c cl ++ sizeLay enums c cl)) :=
+  typeOf_layW enums he t l ht hl (declLineOK_of_nl enums t.cols l.cols hnl) sts hsel k c cl hc hcl
 
 theorem arrLay_normB (c : Col) (cl : ColLay) : normB (arrLay c cl) = arrA c := by
   unfold arrLay arrA
@@ -873,8 +953,8 @@ theorem unsizedOK_at (enums : List EnumDecl) (t : TableD F) (j : Nat) (cols : Li
 /-- piece (2'): column typing from a struct definition in any layout - `type()`, `basetype`,
 `isarray`, `array_length`, `char_length` (incl. `char name[]` sized by the longest value) give the
 column specs the row reader needs and the canonical record-array column types -/
-theorem typing_lay (enums : List EnumDecl) (he : ∀ e ∈ enums, enumOK e = true) (t : TableD F) (l : StructLay)
-    (ht : tableOK2 enums t = true) (hl : structLayOK enums t l = true) (hnl : declNlOK l.cols = true)
+theorem typing_layW (enums : List EnumDecl) (he : ∀ e ∈ enums, enumOK e = true) (t : TableD F) (l : StructLay)
+    (ht : tableOK2 enums t = true) (hl : structLayOK enums t l = true) (hline : declLineOK enums t.cols l.cols = true)
     (sts : List Str) (hsel : selectDef sts (upper t.name) = some (structBlk enums t l))
     (cache : List (Str × List Str))
     (hcache : ∀ e ∈ enums, lookupLast (upper e.tyName) cache = some e.labels)
@@ -892,7 +972,7 @@ theorem typing_lay (enums : List EnumDecl) (he : ∀ e ∈ enums, enumOK e = tru
     obtain ⟨cl, hcl⟩ := colsLayOK_get _ _ hp.cols k c hc
     have hcm : c ∈ t.cols := List.mem_of_getElem? hc
     have hco := hcols c hcm
-    have hty := typeOf_lay enums he t l ht hl hnl sts hsel k c cl hc hcl
+    have hty := typeOf_layW enums he t l ht hl hline sts hsel k c cl hc hcl
     cases hu : cl.unsized with
     | false =>
       rw [typ_sized enums c cl hu] at hty
@@ -914,6 +994,18 @@ theorem typing_lay (enums : List EnumDecl) (he : ∀ e ∈ enums, enumOK e = tru
   intro c hc
   obtain ⟨k, hk⟩ := List.getElem?_of_mem hc
   exact (key k c hk).1
+
+theorem typing_lay (enums : List EnumDecl) (he : ∀ e ∈ enums, enumOK e = true) (t : TableD F) (l : StructLay)
+    (ht : tableOK2 enums t = true) (hl : structLayOK enums t l = true) (hnl : declNlOK l.cols = true)
+    (sts : List Str) (hsel : selectDef sts (upper t.name) = some (structBlk enums t l))
+    (cache : List (Str × List Str))
+    (hcache : ∀ e ∈ enums, lookupLast (upper e.tyName) cache = some e.labels)
+    (hnum : ∀ w ∈ ["short".toList, "int".toList, "long".toList, "float".toList, "double".toList],
+      lookupLast w cache = none) :
+    colSpecs sts (upper t.name) (t.cols.map (·.name)) = .ok (t.cols.map specOfCol) ∧
+    ∀ (k : Nat) (c : Col), t.cols[k]? = some c →
+      rcolOf sts cache (upper t.name) c.name (t.rows.filterMap (fun r => r[k]?)) = .ok (rcolCanon enums c) :=
+  typing_layW enums he t l ht hl (declLineOK_of_nl enums t.cols l.cols hnl) sts hsel cache hcache hnum
 
 /-! ### record arrays (as C01's `finishTables_written`, with the column data that is actually passed) -/
 
